@@ -55,6 +55,42 @@ def handleCodec (cmd : String) (args : List SExp) : String :=
     match ConfigSave.toBytes blocks with
     | .ok b => "ok " ++ toHexW b
     | .error e => "e:" ++ e.name
+  | "cfg-ops", [.list ops] =>
+    -- typed accessors and set_block on one save, starting empty; one token per op, then the image digest and its re-load
+    let render (bl : List ConfigSave.Block) : String :=
+      ",".intercalate (bl.map fun b => toString b.id ++ ":" ++ toString b.flags ++ ":" ++ toHexW b.data)
+    let step (acc : List ConfigSave.Block × List String) (op : SExp) : List ConfigSave.Block × List String :=
+      let (bl, out) := acc
+      let upd (r : Except Err (List ConfigSave.Block)) : List ConfigSave.Block × List String :=
+        match r with
+        | .ok bl' => (bl', out ++ ["ok"])
+        | .error e => (bl, out ++ ["e:" ++ e.name])
+      match op with
+      | .list [c, a] =>
+        match c.sym?, a.bytes?, a.int? with
+        | some "user-set", some raw, _ => upd (ConfigSave.usernameSet bl (Smdh.unitsOfBytes raw))
+        | some "time-set", _, some v => upd (ConfigSave.timeSet bl v)
+        | some "model-set", _, some v => upd (ConfigSave.modelSet bl v)
+        | _, _, _ => (bl, out ++ ["bad-op"])
+      | .list [c, i, d, f] =>
+        match c.sym?, i.nat?, d.bytes? with
+        | some "set", some id, some data => upd (ConfigSave.setBlock bl id data f.nat?)
+        | _, _, _ => (bl, out ++ ["bad-op"])
+      | .list [c] =>
+        match c.sym? with
+        | some "user-get" => (bl, out ++ [match ConfigSave.usernameGet bl with | .ok u => "ok:" ++ renderUnits u | .error e => "e:" ++ e.name])
+        | some "time-get" => (bl, out ++ [match ConfigSave.timeGet bl with | .ok v => "ok:" ++ toString v | .error e => "e:" ++ e.name])
+        | some "model-get" => (bl, out ++ [match ConfigSave.modelGet bl with | .ok v => "ok:" ++ toString v | .error e => "e:" ++ e.name])
+        | some "roundtrip" =>
+          (bl, out ++ [match ConfigSave.toBytes bl with
+            | .error e => "e:" ++ e.name
+            | .ok img => match ConfigSave.load img with
+              | .error e => "load-e:" ++ e.name
+              | .ok bl' => if bl' == bl then "same" else "differs:" ++ render bl'])
+        | _ => (bl, out ++ ["bad-op"])
+      | _ => (bl, out ++ ["bad-op"])
+    let (bl, out) := ops.foldl step ([], [])
+    "ok " ++ ";".intercalate out ++ " " ++ render bl
   | "desc-rt", [k, r] =>
     match k.sym?, r.bytes? with
     | some kind, some raw =>
